@@ -241,6 +241,15 @@ def dispatch (op : String) (a : Args) : Option String :=
       pure (match BC.binCompletion (← a.nat "B") ((← a.items "items").map val) FUEL with
             | .ok bins => "{\"sums\":" ++ jNats (bins.map sumL) ++ ",\"bins\":" ++ jList jNats bins ++ "}"
             | .error e => jErr e)
+  | "uniq" => do
+      let ls ← a.get "lists" >>= parseBinsOf parseNatList
+      pure (jList jNats (BC.uniq ls))
+  | "lwi" => do pure (jNats (BC.lwi (← a.nats "orig") (← a.nats "rem")))
+  | "und_pairs" => do pure (jList jNats (BC.undPairs (← a.nat "c") (← a.nat "y") (← a.nats "items") (← a.nat "B")))
+  | "check_dom" => do
+      let ls ← a.get "lists" >>= parseBinsOf parseNatList
+      pure (jList jNats (BC.checkDom ls))
+  | "bc_lower_bound" => do pure (toString (BC.lowerBound (← a.nat "B") (← a.nats "items")))
   | "is_dominant" => do pure (toString (BC.isDom (← a.nats "l1") (← a.nats "l2")))
   | "completions" => do pure (jList jNats (BC.completions (← a.nat "x") (← a.nats "items") (← a.nat "B")))
   | "check_partition" => do
